@@ -464,7 +464,11 @@ class Walker:
         return self.closure(init)
 
     def enabled(self, belief, act, args):
-        return any(a == act and list(ar) == list(args) for s in belief for (a, ar, d) in self.g.edges.get(s, ()))
+        """the stimulus is possible in EVERY state that explains the execution so far (a stimulus that only
+        some explanations allow - e.g. waking a call that sleeps in one explanation and waits in another - is not
+        applied: the path ends there)."""
+        return bool(belief) and all(any(a == act and list(ar) == list(args) for (a, ar, d) in self.g.edges.get(s, ()))
+                                    for s in belief)
 
     def step(self, belief, act, args):
         cand = set()
